@@ -265,6 +265,25 @@ func c04History(c *Ctx, r *rand.Rand, idx int, o *Obs) {
 				return
 			}
 			o.Ev("index_checks", 1)
+			// Reroot recomputes the indexes of an indexed tree by itself: what it leaves is monitored as it is
+			if !h.t.Rooted() && !hasSingles(h.t) && r.Intn(2) == 0 {
+				var cand []*tree.Node
+				for _, nd := range innerNodes(h.t) {
+					if nd.Nneigh() >= 3 && nd != h.t.Root() {
+						cand = append(cand, nd)
+					}
+				}
+				if len(cand) > 0 {
+					if err := h.t.Reroot(cand[r.Intn(len(cand))]); err == nil {
+						h.log = append(h.log, "Reroot(inner node) [indexes as left by Reroot]")
+						h.pendingOK = h.pendingOK && true
+						if !indexMonitor(o, h.t, ctx+" ; Reroot(inner node), indexes as left by Reroot") {
+							return
+						}
+						o.Ev("index_checks_after_reroot_without_reinit", 1)
+					}
+				}
+			}
 		}
 	}
 	o.SetFP(start, strings.Join(h.log, ";"))
